@@ -67,6 +67,9 @@ INV = [
     # blocked_jobs_by_name (e)
     "forall(x, blocked_jobs_by_name, x not in S() and not empty(blocked_jobs_by_name[x].blocked_by) and blocked_jobs_by_name[x].name == x "
     "and exists(k, range(len(available_jobs)), available_jobs[k] == blocked_jobs_by_name[x]))",
+    # (g) a job recorded as blocked lies at or below the cursor - or (the cursor stepped back over it) all of its blockers are in this batch
+    "forall(x, blocked_jobs_by_name, exists(k, range(len(available_jobs)), available_jobs[k] == blocked_jobs_by_name[x] "
+    "and (k <= highest_index or (P().try_add_blocked_jobs and subset(blocked_jobs_by_name[x].blocked_by, S())))))",
     "forall(x, S(), exists(k, range(len(available_jobs)), available_jobs[k].name == x))",
     # the jobs appended to submitted_jobs mirror the batch (a)
     "len(submitted_jobs) == L0() + len(batch._jobs)",
@@ -107,6 +110,8 @@ contract("HpcSubmitter._make_batch", file=F,
                  "forall(k, range(old(len(blocked_jobs))), blocked_jobs[k] == old(blocked_jobs)[k])",
                  "forall(k, range(old(len(blocked_jobs)), len(blocked_jobs)), blocked_jobs[k].name not in batch._job_names "
                  "and not empty(blocked_jobs[k].blocked_by) and exists(m, range(len(available_jobs)), available_jobs[m] == blocked_jobs[k]))",
+                 "forall(k, range(old(len(blocked_jobs)), len(blocked_jobs)), exists(m, range(len(available_jobs)), available_jobs[m] == blocked_jobs[k] "
+                 "and (m <= highest_index or (P().try_add_blocked_jobs and subset(blocked_jobs[k].blocked_by, batch._job_names)))))",
              ]},
          },
          ensures=[
@@ -134,6 +139,9 @@ contract("HpcSubmitter._make_batch", file=F,
              "forall(k, range(old(len(blocked_jobs))), blocked_jobs[k] == old(blocked_jobs)[k])",
              "forall(k, range(old(len(blocked_jobs)), len(blocked_jobs)), blocked_jobs[k].name not in result[0]._job_names "
              "and not empty(blocked_jobs[k].blocked_by) and exists(m, range(len(available_jobs)), available_jobs[m] == blocked_jobs[k]))",
+             # (g) ... and lies below the cursor (it is not offered to a later batch of this call), or all of its blockers are in this batch
+             "forall(k, range(old(len(blocked_jobs)), len(blocked_jobs)), exists(m, range(len(available_jobs)), available_jobs[m] == blocked_jobs[k] "
+             "and (m < len(available_jobs) - len(result[1]) or (P().try_add_blocked_jobs and subset(blocked_jobs[k].blocked_by, result[0]._job_names)))))",
              # (f) C05: every examined job was placed or has blockers
              "forall(k, range(len(available_jobs) - len(result[1])), available_jobs[k].name in result[0]._job_names or not empty(available_jobs[k].blocked_by))",
              # frame on the persistent job records
